@@ -83,7 +83,7 @@ def load_known():
     return known
 
 
-def conclude(prop_id, spec, insts, notes, tier, t0, stats, replay_filter=None):
+def conclude(prop_id, spec, insts, notes, tier, t0, stats, replay_filter=None, no_evidence=False):
     """Print verdict lines, write evidence, return exit code."""
     known = load_known()
     seed = int(os.environ.get("VERIF_SEED", "0") or 0)
@@ -101,6 +101,13 @@ def conclude(prop_id, spec, insts, notes, tier, t0, stats, replay_filter=None):
             known_hits.append(f)
         else:
             violations.append(f)
+    if no_evidence:
+        for f in known_hits:
+            print("KNOWN-FINDING: property=%s %s" % (prop_id, f.key))
+        for v in violations:
+            print("FINDING: %s at %s :: %s" % (v.key, v.where, v.text))
+            print("VIOLATION property=%s replay=-" % prop_id)
+        return 1 if violations else 0
     os.makedirs(os.path.join(EVIDENCE_DIR, "replay"), exist_ok=True)
     # stale replay files of this property are removed so that a replay path always belongs to this run
     for fn in os.listdir(os.path.join(EVIDENCE_DIR, "replay")):
